@@ -337,7 +337,7 @@ int main(int argc, char** argv)
 			gCurrentId = d["id"].GetString();
 			vh::TerminateContext() = gCurrentId;
 			const std::string op = d["op"].GetString();
-			alarm(10);
+			alarm(5);
 			if (op == "save") RunSave(d);
 			else if (op == "load") RunLoad(d);
 			else if (op == "wdirect") RunWriterDirect(d);
